@@ -154,22 +154,23 @@ func vrtExternal(fn *ssa.Function, name string) externalFn {
 			return v
 		}
 	case "vrtGridTime":
-		// vrtGridTime(name, res time.Duration) time.Time: any instant in [2^40,2^62) ns that
-		// time.Time.Round(res) leaves unchanged
+		// vrtGridTime(name, res time.Duration) time.Time: any instant G in [2^40,2^62) ns that
+		// time.Time.Round(res) leaves unchanged, i.e. G = res·m − off(res) for an integer m
+		// (Go rounds relative to year 1; off(res) = 62135596800·10^9 mod res)
 		return func(fr *frame, args []value) value {
 			d := asInt64(args[1])
-			p := fmt.Sprintf("grid_%s_%d", str(args[0]), d)
+			off := gridOff(d)
+			p := fmt.Sprintf("gridm_%s_%d", str(args[0]), d)
 			if u, ok := replayBits(p); ok {
-				return mkTime(int64(u))
+				return mkTime(int64(u)*d - off)
 			}
-			t := E.input(p, bvSort(64), 64, "bv")
-			facts[t] = &fact{hasRange: true, lo: timeLo, hi: timeHi - 1, grid: d}
-			assertRange(t, timeLo, timeHi-1)
-			// on-grid: (t + off) srem d = 0, asserted with the plain operator (no rewrite)
-			sum := bvAdd(t, bvConst(64, uint64(gridOff(d))))
-			rem := mkOp(bvSort(64), 64, "bvsrem", 0, fmt.Sprintf("(bvsrem %s %s)", sum, bvConst(64, uint64(d))), sum, bvConst(64, uint64(d)))
-			E.addPC(tEq(rem, bvConst(64, 0)))
-			return stime{ns: sym{t, types.Int64}}
+			mlo := (timeLo+off)/d + 1
+			mhi := (timeHi+off)/d - 1
+			m := E.input(p, bvSort(64), 64, "bv")
+			facts[m] = &fact{hasRange: true, lo: mlo, hi: mhi}
+			assertRange(m, mlo, mhi)
+			g := bvSub(bvMul(m, bvConst(64, uint64(d))), bvConst(64, uint64(off)))
+			return stime{ns: sym{g, types.Int64}}
 		}
 	case "vrtTime":
 		// vrtTime(name) time.Time: any instant in [2^40, 2^62) ns
@@ -201,6 +202,12 @@ func vrtExternal(fn *ssa.Function, name string) externalFn {
 			}
 			return symOf(tOr(fpCmp("eq", ta, tb), tAnd(fpIsNaN(ta), fpIsNaN(tb))), types.Bool)
 		}
+	case "vrtAnd":
+		return func(fr *frame, args []value) value { return andValues(args[0], args[1]) }
+	case "vrtOr":
+		return func(fr *frame, args []value) value { return orValues(args[0], args[1]) }
+	case "vrtImplies":
+		return func(fr *frame, args []value) value { return orValues(notValue(args[0]), args[1]) }
 	case "vrtFinite":
 		return func(fr *frame, args []value) value {
 			a := args[0]
